@@ -51,21 +51,36 @@ template <typename P> void dumpTables(vio::Out & o, const P & p, size_t S, size_
 }
 
 void c09_grad(const std::string & kind, vio::Cursor & c, vio::Out & o) {
+    // ops: "u s" = stepUpdateP(s); wolf setters "w v" "l v" "s v" = setDeltaW/setDeltaL/setScaling;
+    //      pga setters "r v" "p v" = setLearningRate/setPredictionLength (throw when v < 0)
+    struct Op { char k; size_t s; double v; };
+    auto readOps = [&](vio::Cursor & cc) {
+        const size_t nops = cc.nextSize();
+        std::vector<Op> ops;
+        for (size_t k = 0; k < nops; ++k) {
+            const std::string t = cc.next();
+            Op op{t[0], 0, 0.0};
+            if (t == "u") op.s = cc.nextSize(); else op.v = cc.nextDouble();
+            ops.push_back(op);
+        }
+        return ops;
+    };
     if (kind == "wolf") {
         const size_t S = c.nextSize(), A = c.nextSize();
         MDP::QFunction q(S, A);
         for (size_t s = 0; s < S; ++s) for (size_t a = 0; a < A; ++a) q(s, a) = c.nextDouble();
         const double dw = c.nextDouble(), dl = c.nextDouble(), sc = c.nextDouble();
-        const size_t nops = c.nextSize();
-        std::vector<size_t> ops(nops);
-        for (auto & s : ops) s = c.nextSize();
+        const auto ops = readOps(c);
         const unsigned seed = (unsigned) c.nextSize();
         Seeder::setRootSeed(seed);
         MDP::WoLFPolicy p(q, dw, dl, sc);
         dumpTables(o, p, S, A);
-        for (size_t s : ops) {
-            dumpCands(o, p.rand_, A);
-            p.stepUpdateP(s);
+        for (const auto & op : ops) {
+            if (op.k == 'u') { dumpCands(o, p.rand_, A); p.stepUpdateP(op.s); }
+            else {
+                if (op.k == 'w') p.setDeltaW(op.v); else if (op.k == 'l') p.setDeltaL(op.v); else p.setScaling(op.v);
+                o << p.getDeltaW() << p.getDeltaL() << p.getScaling();
+            }
             dumpTables(o, p, S, A);
         }
         for (size_t s = 0; s < S; ++s) { o << peekU(p.actualPolicy_.rand_); o << p.sampleAction(s); }
@@ -74,14 +89,21 @@ void c09_grad(const std::string & kind, vio::Cursor & c, vio::Out & o) {
         MDP::QFunction q(S, A);
         for (size_t s = 0; s < S; ++s) for (size_t a = 0; a < A; ++a) q(s, a) = c.nextDouble();
         const double lr = c.nextDouble(), pl = c.nextDouble();
-        const size_t nops = c.nextSize();
-        std::vector<size_t> ops(nops);
-        for (auto & s : ops) s = c.nextSize();
+        const auto ops = readOps(c);
         const unsigned seed = (unsigned) c.nextSize();
         Seeder::setRootSeed(seed);
         MDP::PGAAPPPolicy p(q, lr, pl);
         dumpTables(o, p, S, A);
-        for (size_t s : ops) { p.stepUpdateP(s); dumpTables(o, p, S, A); }
+        for (const auto & op : ops) {
+            if (op.k == 'u') p.stepUpdateP(op.s);
+            else {
+                bool thrown = false;
+                try { if (op.k == 'r') p.setLearningRate(op.v); else p.setPredictionLength(op.v); }
+                catch (const std::invalid_argument &) { thrown = true; }
+                o << thrown << p.getLearningRate() << p.getPredictionLength();
+            }
+            dumpTables(o, p, S, A);
+        }
         for (size_t s = 0; s < S; ++s) { o << peekU(p.policy_.rand_); o << p.sampleAction(s); }
     } else if (kind == "mpol") {
         const size_t S = c.nextSize(), A = c.nextSize();
